@@ -1763,6 +1763,11 @@ func (a *Agent) handleRoleConflict(msg *stun.Message, local, remote Candidate, r
 		}
 	} else {
 		a.isControlling.Store(!a.isControlling.Load())
+		// The pair priorities depend on the role: recompute them so that both agents
+		// keep ordering their pairs identically.
+		for _, pair := range a.checklist {
+			pair.iceRoleControlling = a.isControlling.Load()
+		}
 		a.setSelector()
 	}
 }
